@@ -324,6 +324,9 @@ def sufficient(rp):
     return exact(rp.get_sufficient_penalty(False))
 
 
+SWEEP_MAX = 20      # the oracles sweep all 2^n vectors: a model that reports more variables than that is skipped
+
+
 def all_binary(n):
     """(2^n, n) int64 array; row r is the binary expansion of r, x_0 most significant."""
     r = np.arange(2 ** n, dtype=np.int64)
